@@ -5,7 +5,8 @@
    specified by Coq.Floats.SpecFloat. *)
 From Coq Require Import Reals ZArith List Bool Lra Lia SpecFloat.
 From Coquelicot Require Import Coquelicot.
-From Sky Require Import Result PyList Num NumR G_grid M_Grid M_GridSF P_Grid P_GridInterp P_GridSF.
+From Sky Require Import Result PyList Num NumR G_grid M_Grid M_GridSF P_Grid P_GridInterp P_GridSF
+  P_GridCall P_GridLocal P_GridIrr P_GridExt.
 Import ListNotations.
 Open Scope R_scope.
 
@@ -103,6 +104,30 @@ Theorem C15_make_grid_exact : forall (erf : R -> R) (a b d : Z) (n : nat), (0 <=
 Proof. exact make_grid_exact. Qed.
 Print Assumptions C15_make_grid_exact.
 
+Theorem C15_extend_grid_exact : forall (erf : R -> R) (a b d : Z) (n : nat), (0 <= d)%Z -> (0 < b)%Z ->
+  let pts := fun (a' : Z) (m : nat) =>
+    map (fun i => IZR a' / IZR (10 ^ d) + IZR (0 + Z.of_nat i) * (IZR b / IZR (10 ^ d))) (seq 0 m) in
+  pg_extend (RNum erf)
+    {| pg_desc := {| g_lb := IZR a / IZR (10 ^ d); g_delta := IZR b / IZR (10 ^ d); g_dec := d |};
+       pg_grid := pts a (S n) |}
+  = Ok {| pg_desc := {| g_lb := IZR (a - b) / IZR (10 ^ d); g_delta := IZR b / IZR (10 ^ d); g_dec := d |};
+          pg_grid := pts (a - b)%Z (S (S (S n))) |}.
+Proof. exact extend_grid_exact. Qed.
+Print Assumptions C15_extend_grid_exact.
+
+(* ---- irregular grid, exact arithmetic: greatest member <= v / least member > v *)
+Theorem C15_irregular_lower_upper : forall (erf : R -> R) (grid : list R) (v g0 : R) (rest : list R),
+  grid = g0 :: rest ->
+  (fix incr (l : list R) : Prop := match l with a :: ((b :: _) as r) => a < b /\ incr r | _ => True end) grid ->
+  g0 <= v ->
+  (exists lo, irr_lower (RNum erf) grid v = Ok lo /\ In lo grid /\ lo <= v /\
+              (forall y, In y grid -> y <= v -> y <= lo)) /\
+  ((exists y, In y grid /\ v < y) ->
+   exists up, irr_upper (RNum erf) grid v = Ok up /\ In up grid /\ v < up /\
+              (forall y, In y grid -> v < y -> up <= y)).
+Proof. exact irregular_lower_upper. Qed.
+Print Assumptions C15_irregular_lower_upper.
+
 (* ---- interpolation, exact arithmetic *)
 Theorem C15_linear_reproduces_grid_points : forall (erf : R -> R) (a b d n : Z) (F : R -> R),
   (0 <= d)%Z -> (0 < b)%Z -> (0 <= n)%Z ->
@@ -152,6 +177,62 @@ Theorem C15_parabola_gradient_is_derivative : forall (erf : R -> R) (g : gdesc) 
 Proof. exact parabola_gradient_is_derivative. Qed.
 Print Assumptions C15_parabola_gradient_is_derivative.
 
+(* the value as a function of the parameter, nodes included, is differentiable
+   strictly inside a cell / near a grid point, with the reported gradient *)
+Theorem C15_linear_is_derive_inside_cell : forall (erf : R -> R) (a b d n : Z) (F : R -> R) (x : R),
+  (0 <= d)%Z -> (0 < b)%Z -> (0 <= n)%Z ->
+  let g := {| g_lb := IZR a / IZR (10 ^ d); g_delta := IZR b / IZR (10 ^ d); g_dec := d |} in
+  IZR n + 5 / 10000000000 < (x - g_lb g) / g_delta g < IZR n + 1 - 5 / 10000000000 ->
+  is_derive (lin_value1 (RNum erf) g F) x (lin_grad1 (RNum erf) g F x).
+Proof. exact linear_is_derive_inside_cell. Qed.
+Print Assumptions C15_linear_is_derive_inside_cell.
+
+Theorem C15_parabola_is_derive_near_grid_point : forall (erf : R -> R) (a b d m : Z) (F : R -> R) (x : R),
+  (0 <= d)%Z -> (0 < b)%Z -> (1 <= m)%Z ->
+  let g := {| g_lb := IZR a / IZR (10 ^ d); g_delta := IZR b / IZR (10 ^ d); g_dec := d |} in
+  IZR m - 1 / 2 + 5 / 10000000000 < (x - g_lb g) / g_delta g < IZR m + 1 / 2 - 5 / 10000000000 ->
+  is_derive (par_value1 (RNum erf) g F) x (par_grad1 (RNum erf) g F x).
+Proof. exact parabola_is_derive_near_grid_point. Qed.
+Print Assumptions C15_parabola_is_derive_near_grid_point.
+
+(* ---- the whole call, one shared or several per-source values, every number system *)
+Theorem C15_linear_call_is_per_entry : forall (T : Type) (N : Num T) (g : gdesc) (Fm : manifold)
+    (idxs : list (nat * nat)) (id : Z) (xs : list T) (xof : nat -> T),
+  (forall s e, In (s, e) idxs -> bcast xs s = Ok (xof s)) ->
+  exists st', lin_call N g Fm idxs None id xs =
+    Ok (map (fun se => lin_value1 N g (fun t => Fm id t (fst se) (snd se)) (xof (fst se))) idxs,
+        map (fun se => lin_grad1 N g (fun t => Fm id t (fst se) (snd se)) (xof (fst se))) idxs, st').
+Proof. exact @lin_call_fresh_is_per_entry. Qed.
+Print Assumptions C15_linear_call_is_per_entry.
+
+Theorem C15_parabola_call_is_per_entry : forall (T : Type) (N : Num T) (g : gdesc) (Fm : manifold)
+    (idxs : list (nat * nat)) (id : Z) (xs : list T) (xof : nat -> T),
+  (forall s e, In (s, e) idxs -> bcast xs s = Ok (xof s)) ->
+  exists st', par_call N g Fm idxs None id xs =
+    Ok (map (fun se => par_value1 N g (fun t => Fm id t (fst se) (snd se)) (xof (fst se))) idxs,
+        map (fun se => par_grad1 N g (fun t => Fm id t (fst se) (snd se)) (xof (fst se))) idxs, st').
+Proof. exact @par_call_fresh_is_per_entry. Qed.
+Print Assumptions C15_parabola_call_is_per_entry.
+
+(* ---- cache consistency: the cache key (x0 resp. x1, compared exactly since fix 1fcff1d)
+   determines the cached parametrisation, so a hit returns what a miss would compute *)
+Theorem C15_linear_cache_key : forall (erf : R -> R) (a b d : Z) (F : R -> R) (x x' : R), (0 <= d)%Z -> (0 < b)%Z ->
+  let g := {| g_lb := IZR a / IZR (10 ^ d); g_delta := IZR b / IZR (10 ^ d); g_dec := d |} in
+  g_lb g <= x -> g_lb g <= x' ->
+  round_lower (RNum erf) g x = round_lower (RNum erf) g x' ->
+  lin_params (RNum erf) g F x = lin_params (RNum erf) g F x' /\
+  (let '(_, m, b0) := lin_params (RNum erf) g F x' in
+   lin_value_cached (RNum erf) m x b0 = lin_value1 (RNum erf) g F x
+   /\ lin_grad_cached (RNum erf) m = lin_grad1 (RNum erf) g F x).
+Proof. exact linear_params_determined_by_x0. Qed.
+Print Assumptions C15_linear_cache_key.
+
+Theorem C15_parabola_cache_key : forall (erf : R -> R) (g : gdesc) (F : R -> R) (x x' : R),
+  round_nearest (RNum erf) g x = round_nearest (RNum erf) g x' ->
+  par_params (RNum erf) g F x = par_params (RNum erf) g F x'.
+Proof. exact parabola_params_determined_by_x1. Qed.
+Print Assumptions C15_parabola_cache_key.
+
 (* ---- non-vacuity *)
 Example C15_ex_fine_grid_self_consistent :
   exists p, pg_make SFNum sf_d3 3 (sf_arange sf_zero sf_d3 6) = Ok p /\ self_consistent SFNum p = true.
@@ -161,5 +242,9 @@ Example C15_ex_tenth_grid_self_consistent :
                     (sf_arange (ofZ SFNum (-3)) (sf_div sf_one (ofZ SFNum 10)) 8) = Ok p
             /\ self_consistent SFNum p = true.
 Proof. exact self_consistent_tenth_grid. Qed.
+Example C15_ex_bcast_shared : forall s : nat, bcast (T := Z) [7%Z] s = Ok 7%Z.
+Proof. intros s. reflexivity. Qed.
+Example C15_ex_inside_cell : IZR 2 + 5 / 10000000000 < (1 + 25 / 100 - IZR 10 / IZR (10 ^ 1)) / (IZR 1 / IZR (10 ^ 1)) < IZR 2 + 1 - 5 / 10000000000.
+Proof. change (10 ^ 1)%Z with 10%Z. split; lra. Qed.
 Example C15_ex_hypotheses : (0 <= 3 <= 16)%Z /\ (0 < 1)%Z /\ IZR 58000000 / IZR (10 ^ 3) <= 58000 + 1 / 2.
 Proof. split; [lia|split; [lia|]]. change (10 ^ 3)%Z with 1000%Z. lra. Qed.
